@@ -761,7 +761,7 @@ func (a *ptsTo) genExternal(f *ssa.Function, ci ssa.CallInstruction, name string
 	case hasPrefixAny(name, "(*encoding/xml.Decoder).Token", "(*encoding/xml.Decoder).RawToken", "(*encoding/xml.Decoder).InputOffset", "(*encoding/xml.Decoder).Skip"):
 		freshResults()
 	case hasPrefixAny(name, "(*encoding/json.Decoder).UseNumber", "(*encoding/json.Decoder).DisallowUnknownFields", "(*encoding/json.Encoder).SetEscapeHTML", "(*encoding/json.Encoder).SetIndent",
-		"(*encoding/json.Decoder).More", "(*encoding/json.Decoder).InputOffset"):
+		"(*encoding/json.Decoder).More", "(*encoding/json.Decoder).InputOffset", "(reflect.Value).Pointer", "(reflect.Value).UnsafePointer", "(reflect.Value).UnsafeAddr"):
 	case hasPrefixAny(name, "(*encoding/json.Decoder).Buffered", "(*encoding/json.Decoder).Token"):
 		freshResults()
 	case hasPrefixAny(name, "(*encoding/json.Decoder).Decode", "(*encoding/gob.Decoder).Decode", "(*encoding/xml.Decoder).Decode"):
